@@ -3,6 +3,7 @@ import json
 import re
 import facts as F
 import lib as L
+import absint as A
 
 EXPLANATION = (
     "Static decision of the structural clauses of C10 on MIR of src/adaptive/trust.rs, src/network.rs and "
@@ -243,6 +244,107 @@ def run(ctx):
                  ('trust_vector is changed again after normalisation (%s at line %s): the published scores need not sum to 1' % (extra[0].short(), extra[0].ln))
                  if extra else 'trust_vector is reassigned after the sum was taken')), entry=cb.root)
     ctx.floor('NORMALISE-LAST', 1)
+    numeric_rules(ctx, prog, cb)
+
+
+def numeric_rules(ctx, prog, cb):
+    """FACTOR-* : numeric clauses of the per-node statistics multiplier, decided by abstract interpretation (interval
+    enclosures and derivative signs over the unfolded paths of compute_multi_factor_adjustment; nothing is executed)."""
+    fb = prog.body(ENG + '::compute_multi_factor_adjustment')
+    ctx.touch(fb, len(fb.calls()))
+    U64 = (0.0, float(2 ** 64))
+    try:
+        paths = A.unfold(fb)
+    except A.Unsupported as e:
+        ctx.ob('FACTOR-RANGE', 'factor:shape', False, fb.where(), 'compute_multi_factor_adjustment is not a loop-free numeric body any more (%s): its range cannot be enclosed (fail closed)' % e)
+        return
+    fields = set(prog.adt_fields(STATS))
+    ins = set()
+    for conds, t, ln in paths:
+        A.inputs_of(t, ins)
+        for c in conds:
+            if c[0] != 'switch':
+                A.inputs_of(c[1], ins)
+                A.inputs_of(c[2], ins)
+    foreign = sorted(x for x in ins if x.split('.')[-1] not in fields)
+    base = {x: U64 for x in ins}
+    pieces = [(conds, t) for conds, t, ln in paths]
+    # 1. range: every piece is finite, never NaN, never negative (a negative or NaN multiplier poisons the normalised scores)
+    lo_all, hi_all, bad = None, None, []
+    for i, (conds, t) in enumerate(pieces):
+        r = A.refine(base, conds)
+        iv = A.interval(t, r)
+        if iv[2] or iv[0] < -1e-9 or iv[1] == A.INF:
+            bad.append('piece %d [%s]: value in [%g, %g]%s' % (i, ' and '.join('%s %s %s' % (A.show(c[1]), c[0], A.show(c[2])) for c in conds if c[0] != 'switch') or 'always',
+                                                             iv[0], iv[1], ' or NaN' if iv[2] else ''))
+        lo_all = iv[0] if lo_all is None else min(lo_all, iv[0])
+        hi_all = iv[1] if hi_all is None else max(hi_all, iv[1])
+    ctx.ob('FACTOR-RANGE', 'factor:finite-nonnegative', not bad and not foreign, fb.where(),
+           ('for all u64 statistics the multiplier lies in [%.4g, %.4g]: finite, never NaN, never negative (%d path(s) enclosed)' % (max(lo_all, 0.0), hi_all, len(pieces)))
+           if not bad and not foreign else
+           ('the multiplier can leave [0, inf): %s' % '; '.join(bad) if bad else 'the multiplier reads inputs that are not NodeStatistics counters: %s' % foreign), entry=fb.id)
+    # 2. monotone in the response counters inside every piece, and across the pieces
+    for var, want, word in (('correct_responses', '+', 'one more success never lowers'), ('failed_responses', '-', 'one more failure never raises')):
+        if var not in ins:
+            ctx.ob('FACTOR-MONOTONE', 'factor:%s' % var, False, fb.where(), 'the multiplier no longer reads %s' % var, entry=fb.id)
+            continue
+        probs = []
+        for i, (conds, t) in enumerate(pieces):
+            r = A.refine(base, conds)
+            sg = A.dsign(t, var, r)
+            if sg not in (want, '0'):
+                probs.append('inside piece %d the multiplier is %s in %s' % (i, {'?': 'not provably monotone', '+': 'increasing', '-': 'decreasing'}[sg], var))
+        for ib, ia, iv in A.piece_steps(pieces, var, base):
+            okstep = (not iv[2]) and (iv[0] >= -1e-9 if want == '+' else iv[1] <= 1e-9)
+            if not okstep:
+                probs.append('stepping %s by one from piece %d into piece %d changes the multiplier by [%g, %g]' % (var, ib, ia, iv[0], iv[1]))
+        ctx.ob('FACTOR-MONOTONE', 'factor:%s' % var, not probs, fb.where(),
+               ('%s the multiplier: derivative sign %s on every path and every step between the %d pieces has that sign' % (word, want, len(pieces)))
+               if not probs else ('%s is NOT guaranteed: %s' % (word, '; '.join(probs[:3]))), entry=fb.id)
+    # 3. creating the statistics entry: a node without an entry is not multiplied at all (implicit factor 1.0) when the
+    #    application site is guarded by `if let Some(stats) = node_stats.get(node)`; the first success report creates the
+    #    entry (all other counters 0), so the multiplier for {correct >= 1, failed = 0, rest = 0} must not be below 1.0
+    implicit = None
+    site = None
+    for cs in cb.calls(r'::compute_multi_factor_adjustment$'):
+        site = cs
+        for c in F.dominating_conds(cb, cs.bb):
+            if c.kind == 'disc' and c.variant_is(1) and c.expr.mentions_call(r'HashMap::<.*>::get$') is not None and 'node_stats' in c.expr.show():
+                implicit = 1.0
+    if site is None:
+        ctx.ob('FACTOR-ENTRY', 'factor:first-report', False, cb.where(), 'compute_multi_factor_adjustment is no longer applied in compute_global_trust_internal')
+    elif implicit is None:
+        ctx.ob('FACTOR-ENTRY', 'factor:first-report', True, site.where(), 'the multiplier is applied to every node (no implicit factor for nodes without statistics)')
+    else:
+        first = {x: (0.0, 0.0) for x in ins}
+        if 'correct_responses' in first:
+            first['correct_responses'] = (1.0, U64[1])
+        lo = None
+        for conds, t in pieces:
+            r = A.refine(first, conds)
+            if any(v[0] > v[1] for k, v in r.items() if k != '__pos__'):
+                continue
+            # is the piece compatible with correct >= 1? (L <= 0 pieces are not)
+            feasible = True
+            for c in conds:
+                if c[0] in ('Le', 'Lt', 'Eq'):
+                    la = A.linform(c[1])
+                    if la is not None and 'correct_responses' in la[0] and la[0]['correct_responses'] > 0:
+                        feasible = False
+            if not feasible:
+                continue
+            iv = A.interval(t, r)
+            lo = iv[0] if lo is None else min(lo, iv[0])
+        okf = lo is not None and lo >= implicit - 1e-9
+        ctx.ob('FACTOR-ENTRY', 'factor:first-report', okf, site.where(),
+               ('a node without a statistics entry keeps its score (implicit multiplier 1.0); after its first success report the '
+                'multiplier is >= %.3g' % lo) if okf else
+               ('a node without a statistics entry is not multiplied (implicit 1.0), but the first success report creates the entry and the '
+                'multiplier for {correct >= 1, failed = 0, other counters 0} can be as low as %.3g: the first success ever reported LOWERS the '
+                'node\'s share of the normalised scores' % (lo if lo is not None else float('nan'))), entry=cb.root)
+    ctx.floor('FACTOR-RANGE', 1)
+    ctx.floor('FACTOR-MONOTONE', 2)
+    ctx.floor('FACTOR-ENTRY', 1)
 
 
 def on_tv_iter(cb, nxt, mutcall):
